@@ -47,18 +47,23 @@ theorem climb_chain (fs : Fs) (top : Path) (pkg : List Str) (hc : pkgChainOK fs 
 
 theorem climb_clean (fs : Fs) (top : Path) (h : noInitUpTo fs top = true) (k : Nat) :
     climb fs (top.take k).reverse = [] := by
-  have hk : ∀ j, j ≤ top.length → fs.exists (top.take j ++ [INIT_PY]) = false := by
-    intro j hj
+  have hk : ∀ j, 0 < j → j ≤ top.length → fs.exists (top.take j ++ [INIT_PY]) = false := by
+    intro j hj0 hj
     simp only [noInitUpTo, List.all_eq_true, List.mem_range, isPkgDir] at h
-    have := h j (by omega)
+    have := h (j - 1) (by omega)
+    rw [show j - 1 + 1 = j by omega] at this
     simpa using this
   rcases List.eq_nil_or_concat (top.take k) with h0 | ⟨d, x, hd⟩
   · rw [h0]; rfl
-  · have h3 : fs.exists (top.take k ++ [INIT_PY]) = false := by
+  · have hpos : 0 < k ∧ 0 < top.length := by
+      have hl := congrArg List.length hd
+      simp at hl
+      omega
+    have h3 : fs.exists (top.take k ++ [INIT_PY]) = false := by
       rcases Nat.le_total k top.length with hle | hle
-      · exact hk k hle
+      · exact hk k hpos.1 hle
       · rw [List.take_of_length_le hle]
-        have := hk top.length (Nat.le_refl _)
+        have := hk top.length hpos.2 (Nat.le_refl _)
         rwa [List.take_of_length_le (Nat.le_refl _)] at this
     rw [hd, List.concat_eq_append] at h3 ⊢
     rw [climb_snoc, h3]
